@@ -192,6 +192,12 @@ impl Translator {
                 if self.root_cur == Cur::Cmd("cmd.suspend") { self.emit("rp.susp".into()); self.rootq_len -= 1; self.root_cur = Cur::Emitted; }
             }
             "unsubscribe.mid" => {}
+            "subscribe.responded" => {
+                if let Cur::Responding(sl) = self.root_cur.clone() { self.emit("rr".into()); self.acked[sl] = true; self.root_cur = Cur::Emitted; }
+            }
+            "unsubscribe.done" => { if self.root_cur == Cur::Cmd("cmd.unsubscribe") { self.root_complete(); self.root_cur = Cur::Emitted; } }
+            "suspension.done" => { if self.root_cur == Cur::Cmd("cmd.unsuspend") { self.root_complete(); self.root_cur = Cur::Emitted; } }
+            "notify.sent" => { if a == 0 { self.root_complete(); self.root_cur = Cur::Emitted; } }
             "process.closed" => { if a == 0 { self.root_complete(); } else { self.clone_complete(a); self.clone_closed[a] = true; } }
             "update.begin" => { self.await_snap[a] = true; }
             "update.deliver" => {
@@ -602,6 +608,9 @@ fn run_case(sc: &Script, forced: &[usize], rng: &mut Rng) -> CaseResult {
             let sched = sh.sched.clone();
             let s2 = sched.clone();
             vg::set_event_handler(Some(Arc::new(move |name, id| s2.pause(a, |t| t.on_hook(a, name, id)))));
+            // also pause inside FrimMap's rcu closures (between the load and the CAS of every map edit)
+            let s3 = sched.clone();
+            rotonda::verif::set_point_handler(Some(Arc::new(move |_name| s3.pause(a, |_| {}))));
             let mut out = ActorOut { gate: None, links: vec![] };
             if sched.first_turn(a).is_ok() {
                 if a == 0 {
@@ -628,6 +637,7 @@ fn run_case(sc: &Script, forced: &[usize], rng: &mut Rng) -> CaseResult {
                 }
             }
             vg::set_event_handler(None);
+            rotonda::verif::set_point_handler(None);
             sched.done(a);
             out
         }).unwrap());
